@@ -295,19 +295,44 @@ def instant_of_time(h, m, s, us, off):
     return total % (24 * 3600 * 1000000)
 
 
-def judge_encode(acc, encname, value):
+class SubDateTime(dt.datetime):
+    """what other libraries hand out: subclasses of the standard types (pandas.Timestamp, ...)"""
+
+
+class SubDate(dt.date):
+    pass
+
+
+class SubTime(dt.time):
+    pass
+
+
+def as_subclass(v):
+    if isinstance(v, dt.datetime):
+        return SubDateTime(v.year, v.month, v.day, v.hour, v.minute, v.second, v.microsecond, tzinfo=v.tzinfo)
+    if isinstance(v, dt.date):
+        return SubDate(v.year, v.month, v.day)
+    return SubTime(v.hour, v.minute, v.second, v.microsecond, tzinfo=v.tzinfo)
+
+
+def judge_encode(acc, encname, value, route="method"):
+    """route 'method': encode_date / encode_time / encode_datetime called directly; 'value': through the
+    encoder's own dispatch on the value's type (encode_value), as a dump does; 'subclass': the same with an
+    instance of a subclass of the standard type"""
     enc = impl.make_encoder(encname)
     acc.n += 1
-    case = {"dir": "encode", "encoder": encname, "value": vjson.enc(value)}
+    case = {"dir": "encode", "encoder": encname, "value": vjson.enc(value), "route": route}
     default_zone = None if encname == "ODL" else 0
     try:
-        if isinstance(value, dt.datetime):
+        if route != "method":
+            text = enc.encode_value(as_subclass(value) if route == "subclass" else value)
+        elif isinstance(value, dt.datetime):
             text = enc.encode_datetime(value)
         elif isinstance(value, dt.date):
             text = enc.encode_date(value)
         else:
             text = enc.encode_time(value)
-    except ValueError:
+    except (ValueError, TypeError):
         acc.outcomes["encode-refused"] += 1
         return
     except Exception as e:  # noqa: BLE001
@@ -355,8 +380,8 @@ def judge_encode(acc, encname, value):
         prob = "text is not a date/time of the dialect: %s" % e
     if prob:
         acc.outcomes["violation"] += 1
-        acc.violation(case, "encode-changes-meaning:" + encname, "%r written as %r: %s" % (value, text, prob),
-                      sig="encode|%s|%s|%s" % (encname, type(value).__name__, _shape(text)))
+        acc.violation(case, "encode-changes-meaning:" + encname, "%r written (route: %s) as %r: %s" % (value, route, text, prob),
+                      sig="encode|%s|%s|%s|%s" % (encname, type(value).__name__, _shape(text), route))
     else:
         acc.nontrivial += 1
         acc.outcomes["encode-ok"] += 1
@@ -391,6 +416,9 @@ def shard_encode(spec):
     for i, v in enumerate(encode_values(thorough)):
         if i % nparts == part:
             judge_encode(acc, encname, v)
+            if i % 3 == 0:
+                judge_encode(acc, encname, v, "value")
+                judge_encode(acc, encname, v, "subclass")
     acc.sample({"encoder": encname}, cap=1)
     return acc
 
@@ -412,7 +440,7 @@ def run(ctx):
                 "fraction spellings, %d zone spellings (none, Z, every whole hour -12..+12 in 1- and 2-digit form, "
                 "half and three-quarter hours with ':'), date x time x zone products, leap-second texts; each through "
                 "decoder.decode_datetime and loads('T = ...') in 5 configurations; encode: %d date/time/datetime "
-                "objects (years 1..9999, micro/millisecond boundaries, 12 zones incl. naive) x 4 encoders, output "
+                "objects (years 1..9999, micro/millisecond boundaries, 12 zones incl. naive) x 4 encoders (encode_date/time/datetime directly; every third value also through the encoder's own type dispatch, as itself and as an instance of a subclass of the standard type), output "
                 "re-read by an independent field parser; non-trivial = a definite expectation was compared"
                 % ("all" if th else "boundary", YEARS_T if th else YEARS_Q, len(FRACS), len(zones()),
                    len(list(encode_values(th)))),
@@ -437,7 +465,7 @@ def replay(case):
                 break
             decode_both(d, case["text"])
     if case["dir"] == "encode":
-        judge_encode(acc, case["encoder"], vjson.dec(case["value"]))
+        judge_encode(acc, case["encoder"], vjson.dec(case["value"]), case.get("route", "method"))
         return acc.violations
     # decode: recompute the expectation from the text
     text, d = case["text"], case["dialect"]
